@@ -297,7 +297,25 @@ def aimed_pred_case(rng):
     return {'doc': doc, 'path': '*[%s%s%s]' % (expr, op, lit)}
 
 
+def aimed_union_case(rng):
+    """a union one of whose operands is a single step with a positional predicate on the descendant
+    axis, the other one selecting elements that may lie earlier and contain nodes the first operand
+    has to count: `select` feeds the selected subtree to every operand in update-only mode, and the
+    position counters must keep running there (seeded change C05-2)"""
+    doc = G.rand_doc(rng, rng.choice([7, 9, 12]), deep=True)
+    x = rng.choice(['a', 'b', 'text()', '*'])
+    a = 'descendant::%s[%d]' % (x, rng.choice([1, 2, 2, 3]))
+    b = rng.choice(['a', 'b', '*', '*[1]', 'a/a', 'a/b', 'descendant::b', 'descendant::a', '*/*'])
+    ops = [a, b]
+    if rng.random() < 0.3:
+        ops.append(rng.choice(['a', 'b', 'descendant::text()[1]']))
+    rng.shuffle(ops)
+    return {'doc': doc, 'path': rng.choice(['|', ' | ']).join(ops)}
+
+
 def gen_case(rng, profile=None):
+    if profile is None and rng.random() < 0.08:
+        return aimed_union_case(rng)
     if profile is None and rng.random() < 0.25:
         c = aimed_pred_case(rng)
         if c:
